@@ -61,6 +61,9 @@ type Exchange struct {
 	Panic     string
 	ReqDiff   string // non-empty if the caller's *http.Request changed during the call
 	ReqDiffBg string // non-empty if it changed later (background work)
+	Thread    int    // thread index in the concurrent phase (-1: sequential client)
+	Scribbled bool   // the caller wrote to the returned header map
+	ReqReused bool   // the caller modified its request after closing the body
 	NilNil    bool   // RoundTrip returned (nil, nil)
 	Both      bool   // RoundTrip returned a response and an error
 
@@ -892,6 +895,24 @@ func (w *World) run() {
 		obs.Keys = append(obs.Keys, ks)
 		obs.KeySizes = append(obs.KeySizes, sz)
 	}
+	if len(sc.Threads) > 0 {
+		var wg sync.WaitGroup
+		var cmu sync.Mutex
+		for ti, th := range sc.Threads {
+			wg.Add(1)
+			go func(ti int, th []*Req) {
+				defer wg.Done()
+				for _, rq := range th {
+					if c := w.doReqMode(rt, len(sc.Steps), rq, true, ti); c != nil {
+						cmu.Lock()
+						cancels = append(cancels, c)
+						cmu.Unlock()
+					}
+				}
+			}(ti, th)
+		}
+		wg.Wait()
+	}
 	// let background work finish: longer than any SWR timeout we configure
 	drain := 2 * time.Hour
 	if sc.SWRSet && time.Duration(sc.SWRNs) > time.Hour {
@@ -903,7 +924,7 @@ func (w *World) run() {
 		if ex.resp != nil && ex.Resp != nil {
 			ex.Resp.HeaderEnd = ex.resp.Header.Clone()
 		}
-		if ex.req != nil {
+		if ex.req != nil && !ex.ReqReused {
 			ex.ReqDiffBg = diffReq(ex.reqSnap, ex.req)
 		}
 	}
@@ -939,8 +960,16 @@ func (w *World) corrupt(c *Corrupt) {
 }
 
 func (w *World) doReq(rt http.RoundTripper, step int, rq *Req) context.CancelFunc {
+	return w.doReqMode(rt, step, rq, false, -1)
+}
+
+func (w *World) doReqMode(rt http.RoundTripper, step int, rq *Req, concurrent bool, thread int) context.CancelFunc {
 	obs := w.obs
-	ex := &Exchange{Step: step, Idx: len(obs.Exchanges), Req: rq, Gid: gid()}
+	ex := &Exchange{Step: step, Req: rq, Gid: gid(), Thread: thread}
+	w.mu.Lock()
+	ex.Idx = len(obs.Exchanges)
+	obs.Exchanges = append(obs.Exchanges, ex)
+	w.mu.Unlock()
 	base := context.WithValue(context.Background(), exKey{}, ex.Idx)
 	ctx, cancel := context.WithCancel(base)
 	switch {
@@ -952,9 +981,6 @@ func (w *World) doReq(rt http.RoundTripper, step int, rq *Req) context.CancelFun
 	req, err := http.NewRequestWithContext(ctx, rq.Method, rq.URL, nil)
 	if err != nil {
 		ex.Err = "harness: bad request: " + err.Error()
-		w.mu.Lock()
-		obs.Exchanges = append(obs.Exchanges, ex)
-		w.mu.Unlock()
 		return cancel
 	}
 	for _, kv := range rq.Header {
@@ -962,10 +988,9 @@ func (w *World) doReq(rt http.RoundTripper, step int, rq *Req) context.CancelFun
 	}
 	ex.req = req
 	ex.reqSnap = snapReq(req)
-	w.mu.Lock()
-	obs.Exchanges = append(obs.Exchanges, ex)
-	w.mu.Unlock()
-	w.curEx.Store(int64(ex.Idx))
+	if !concurrent {
+		w.curEx.Store(int64(ex.Idx))
+	}
 	ex.StartNs = w.now()
 	ex.StartSeq = w.seq.Add(1)
 	var resp *http.Response
@@ -981,7 +1006,9 @@ func (w *World) doReq(rt http.RoundTripper, step int, rq *Req) context.CancelFun
 	}()
 	ex.EndNs = w.now()
 	ex.EndSeq = w.seq.Add(1)
-	w.curEx.Store(-1)
+	if !concurrent {
+		w.curEx.Store(-1)
+	}
 	ex.ReqDiff = diffReq(ex.reqSnap, req)
 	if ex.Panic != "" {
 		return cancel
@@ -1004,6 +1031,17 @@ func (w *World) doReq(rt http.RoundTripper, step int, rq *Req) context.CancelFun
 		ReqIsCaller: resp.Request == req,
 	}
 	ex.resp = resp
+	if rq.Scribble {
+		// the response belongs to the caller now: it may do with the header map what it likes
+		ex.Scribbled = true
+		resp.Header.Set("X-Scribble", "caller")
+		resp.Header.Del("Etag")
+		resp.Header.Add("Cache-Control", "caller-owned")
+		resp.Header["Date"] = []string{"scribbled"}
+	}
+	if rq.LateBodyNs > 0 {
+		time.Sleep(time.Duration(rq.LateBodyNs))
+	}
 	if resp.Body != nil {
 		func() {
 			defer func() {
@@ -1021,6 +1059,17 @@ func (w *World) doReq(rt http.RoundTripper, step int, rq *Req) context.CancelFun
 	}
 	ro.Trailer = resp.Trailer.Clone()
 	ex.Resp = ro
+	if rq.ReuseReq {
+		// the body is closed: the caller may now reuse / modify its request
+		ex.ReqReused = true
+		req.Header.Set("X-Reused", "1")
+		req.Header.Del("Cache-Control")
+		if rq.Scribble {
+			for i := 0; i < 3; i++ {
+				resp.Header.Set("X-Scribble-Late", strconv.Itoa(i))
+			}
+		}
+	}
 	return cancel
 }
 
